@@ -30,6 +30,7 @@ import CB.Lemmas.C01Leak
 import CB.Lemmas.C01Leak2
 import CB.Lemmas.C01Leak3
 import CB.Lemmas.C01Leak4
+import CB.Lemmas.C01Leak5
 import CB.Model.Extracted
 namespace CB.P01
 open CB CB.Leak CB.Leak.Sec
@@ -328,6 +329,26 @@ theorem boxed_wrapping_mul_ni (na nb : Nat) (a₁ b₁ a₂ b₂ : List Sec) :
 theorem boxed_checked_mul_ni (na nb : Nat) (a₁ b₁ a₂ b₂ : List Sec) :
     (boxedCheckedMul na nb a₁ b₁).tr = (boxedCheckedMul na nb a₂ b₂).tr := by simp
 
+/-! ### extension round: safegcd — the `UnsatInt` arithmetic that IS constant-time -/
+
+/-- `UnsatInt::add`, `neg`, `shr`, `eq`, `is_negative`, `select`, `bits` / `leading_zeros` -/
+theorem unsat_add_ni (n : Nat) (a₁ b₁ a₂ b₂ : List Sec) : (unsatAdd n a₁ b₁).tr = (unsatAdd n a₂ b₂).tr := by simp
+theorem unsat_neg_ni (n : Nat) (a₁ a₂ : List Sec) : (unsatNeg n a₁).tr = (unsatNeg n a₂).tr := by simp
+theorem unsat_shr_ni (n : Nat) (a₁ a₂ : List Sec) : (unsatShr n a₁).tr = (unsatShr n a₂).tr := by simp
+theorem unsat_eq_ni (n : Nat) (a₁ b₁ a₂ b₂ : List Sec) : (unsatEq n a₁ b₁).tr = (unsatEq n a₂ b₂).tr := by simp
+theorem unsat_is_negative_ni (n : Nat) (a₁ a₂ : List Sec) : (unsatIsNegative n a₁).tr = (unsatIsNegative n a₂).tr := by simp
+theorem unsat_select_ni (n : Nat) (a₁ b₁ a₂ b₂ : List Sec) (c₁ c₂ : Sec) :
+    (unsatSelect n a₁ b₁ c₁).tr = (unsatSelect n a₂ b₂ c₂).tr := by simp
+theorem unsat_bits_ni (n : Nat) (a₁ a₂ : List Sec) : (unsatBits n a₁).tr = (unsatBits n a₂).tr := by simp
+/-- `UnsatInt::from_uint` / `to_uint` (`impl_limb_convert!`): the bit positions visited are a function of the two limb counts -/
+theorem unsat_from_uint_ni (n u : Nat) (a₁ a₂ : List Sec) : (unsatFromUint n u a₁).tr = (unsatFromUint n u a₂).tr := by simp
+theorem unsat_to_uint_ni (u n : Nat) (a₁ a₂ : List Sec) : (unsatToUint u n a₁).tr = (unsatToUint u n a₂).tr := by simp
+/-- `inv_mod2_62` -/
+theorem inv_mod2_62_ni (v₁ v₂ : Sec) : (invMod262 v₁).tr = (invMod262 v₂).tr := by simp
+/-- `SafeGcdInverter::norm` -/
+theorem unsat_norm_ni (n : Nat) (m₁ v₁ m₂ v₂ : List Sec) (c₁ c₂ : Sec) :
+    (unsatNorm n m₁ v₁ c₁).tr = (unsatNorm n m₂ v₂ c₂).tr := by simp
+
 /-! ## T01.2 — `_vartime` operations: the trace is a function of the documented-public operand only -/
 
 /-- `shl_vartime(shift)`: for a fixed shift the trace does not depend on the value -/
@@ -364,6 +385,43 @@ theorem boxed_shl_trace_of_shift (n : Nat) (s : Sec) (a₁ a₂ : List Sec) :
 theorem boxed_shr_trace_of_shift (n : Nat) (s : Sec) (a₁ a₂ : List Sec) :
     (boxedOverflowingShr n a₁ s).tr = (boxedOverflowingShr n a₂ s).tr := by
   rw [boxedOverflowingShr_tr, boxedOverflowingShr_tr]
+
+/-! ### safegcd: what the traces of `UnsatInt::mul`, `fg`, `de` and of one trip of `divsteps` are functions of -/
+
+/-- `UnsatInt::mul(other: i64)` branches on `other < 0` at source level: for multipliers of EQUAL SIGN the traces are
+equal, whatever the long operand and the magnitude of the multiplier are -/
+theorem unsat_mul_trace_of_sign (n : Nat) (a₁ a₂ : List Sec) (o₁ o₂ : Sec) (h : maskMsb o₁ = maskMsb o₂) :
+    (unsatMul n a₁ o₁).tr = (unsatMul n a₂ o₂).tr := by
+  rw [unsatMul_tr, unsatMul_tr, h]
+
+/-- `fg(f, g, t)` is constant-time in `f`, `g` and in the magnitudes of the matrix entries: its trace is a function of
+the four SIGN masks of `t` -/
+theorem fg_trace_of_matrix_signs (n : Nat) (f₁ g₁ f₂ g₂ : List Sec) (a₁ b₁ c₁ d₁ a₂ b₂ c₂ d₂ : Sec)
+    (ha : maskMsb a₁ = maskMsb a₂) (hb : maskMsb b₁ = maskMsb b₂) (hc : maskMsb c₁ = maskMsb c₂) (hd : maskMsb d₁ = maskMsb d₂) :
+    (fgStep n f₁ g₁ a₁ b₁ c₁ d₁).tr = (fgStep n f₂ g₂ a₂ b₂ c₂ d₂).tr := by
+  rw [fgStep_tr, fgStep_tr, ha, hb, hc, hd]
+
+/-- `de(modulus, inverse, t, d, e)`: a function of the sign masks of `t` and of the two words `md`, `me` -/
+theorem de_trace_of_signs (n : Nat) (m₁ d₁ e₁ m₂ d₂ e₂ : List Sec) (i₁ i₂ a₁ b₁ c₁ q₁ a₂ b₂ c₂ q₂ : Sec)
+    (ha : maskMsb a₁ = maskMsb a₂) (hb : maskMsb b₁ = maskMsb b₂) (hc : maskMsb c₁ = maskMsb c₂) (hq : maskMsb q₁ = maskMsb q₂)
+    (hmd : maskMsb (deMdOf n a₁ b₁ i₁ d₁ e₁) = maskMsb (deMdOf n a₂ b₂ i₂ d₂ e₂))
+    (hme : maskMsb (deMdOf n c₁ q₁ i₁ d₁ e₁) = maskMsb (deMdOf n c₂ q₂ i₂ d₂ e₂)) :
+    (deStep n m₁ i₁ a₁ b₁ c₁ q₁ d₁ e₁).tr = (deStep n m₂ i₂ a₂ b₂ c₂ q₂ d₂ e₂).tr := by
+  rw [deStep_tr, deStep_tr, ha, hb, hc, hq, hmd, hme]
+
+/-- ONE TRIP of the outer loop of `divsteps` decomposes: the trace of `jump` on the low words, then `fg` and `de` on what
+`jump` returned.  Together with the two theorems above: beyond `jump` (and the trip count) the only thing the outer loop
+shows is the signs of the transition matrix and of `md`, `me` -/
+theorem divsteps_trip_trace (n : Nat) (f0 : List Sec) (inv : Sec) (st : Sec × List Sec × List Sec × List Sec × List Sec) :
+    (divstepsTrip n f0 inv st).tr =
+      Event.pubIndex 0 :: ((jumpFull (limb st.2.1 0) (limb st.2.2.1 0) st.1).tr ++
+        ((fgStep n st.2.1 st.2.2.1 (jumpFull (limb st.2.1 0) (limb st.2.2.1 0) st.1).val.2.1
+            (jumpFull (limb st.2.1 0) (limb st.2.2.1 0) st.1).val.2.2.1 (jumpFull (limb st.2.1 0) (limb st.2.2.1 0) st.1).val.2.2.2.1
+            (jumpFull (limb st.2.1 0) (limb st.2.2.1 0) st.1).val.2.2.2.2).tr ++
+         (deStep n f0 inv (jumpFull (limb st.2.1 0) (limb st.2.2.1 0) st.1).val.2.1
+            (jumpFull (limb st.2.1 0) (limb st.2.2.1 0) st.1).val.2.2.1 (jumpFull (limb st.2.1 0) (limb st.2.2.1 0) st.1).val.2.2.2.1
+            (jumpFull (limb st.2.1 0) (limb st.2.2.1 0) st.1).val.2.2.2.2 st.2.2.2.1 st.2.2.2.2).tr)) := by
+  rw [divstepsTrip_tr, fgStep_tr]
 
 -- … and the public operand really shows (the statements above are not vacuous "trace = []"):
 example : (shlVartime 2 [] 1).tr ≠ (shlVartime 2 [] 64).tr := by decide
@@ -428,6 +486,23 @@ theorem boxed_shr_feeds_secret_to_div :
 follows the trailing zeros of `g` and the body branches on the sign of `delta`
 (finding C01-safegcd-jump-vartime; the anchor of the property names exactly this loop). -/
 theorem jump_leaks : (jump (ofNat 1) (ofNat 2) one).tr ≠ (jump (ofNat 1) (ofNat 4) one).tr := by decide
+
+/-- `UnsatInt::mul` (inside `fg` / `de`, behind the NON-vartime `inv_odd_mod`, `gcd`): multiplying by `+1` and by `−1` gives
+different traces — the sign of a transition-matrix entry (secret-derived) steers a branch at source level -/
+theorem unsat_mul_sign_leaks :
+    (unsatMul 2 [ofNat 5, ofNat 0] (ofNat 1)).tr ≠ (unsatMul 2 [ofNat 5, ofNat 0] Sec.max).tr := by decide
+
+/-- the full `jump` (complete state: i128 `g`, matrix): trip count and branches depend on the operands -/
+theorem jump_full_leaks : (jumpFull (ofNat 1) (ofNat 2) one).tr ≠ (jumpFull (ofNat 1) (ofNat 4) one).tr := by decide
+
+/-- `divsteps`: the number of outer trips `iterations(f.bits(), g.bits())` is a loop bound computed from the operands'
+bit lengths — the third event of the trace is `declassify 9` for `g = 0` and `declassify 151` for `g = 2^50`
+(one unsaturated limb) -/
+theorem divsteps_trip_count_leaks :
+    (divsteps 1 [one] [ofNat 3] [ofNat 0] (ofNat 5)).tr.getD 2 (.pubIndex 0) ≠
+    (divsteps 1 [one] [ofNat 3] [ofNat (2 ^ 50)] (ofNat 5)).tr.getD 2 (.pubIndex 0) := by
+  decide +kernel
+example : (divsteps 1 [one] [ofNat 3] [ofNat (2 ^ 50)] (ofNat 5)).tr.getD 2 (.pubIndex 0) = .declassify 151 := by decide +kernel
 
 /-! ## the instrumented model computes what the crate computes (samples; `reveal` is used ONLY here) -/
 
